@@ -187,6 +187,42 @@ func checkC12(cx *Ctx, r *Report) {
 
 	cx.checkTags(r, "R-TAG", "samlp.AttributeQueryType", "soap.AttributeQueryEnvelope", "soap.AttributeQueryBody", "saml.AttributeType", "saml.SubjectType", "saml.NameIDType")
 
+	// every requested attribute reaches the filter: the list handed to the constructor is built by unconditional appends
+	if k.userinfo != nil {
+		for f := range k.userinfo.Scope {
+			if f.Parent() == nil {
+				continue // only the step's own closures, not the helpers it calls
+			}
+			for _, c := range callsIn(f) {
+				call, ok := c.(*ssa.Call)
+				if !ok {
+					continue
+				}
+				if b, isB := call.Call.Value.(*ssa.Builtin); !isB || b.Name() != "append" {
+					continue
+				}
+				skip := iterationCanSkip(fx.info(f), call.Block())
+				r.Check(!skip, "R-GUARD", "attr:queried-list-append@"+w.InstrPos(call), w.InstrPos(call), "every requested attribute is passed on to the filter (no iteration skips the append)", "an iteration of the loop can skip a requested attribute: if all are dropped the 'nothing requested - return everything' branch discloses the whole record")
+			}
+		}
+	}
+	// the signature is the last thing done to the answer: the signing step is the last step and nothing stores into
+	// the message after the chain
+	if k.sign != nil {
+		r.Check(k.sign.Idx == len(ch.Steps)-1, "R-ORDER", "attr:sign-last", k.sign.Pos, "signing is the last step", "a step after the signing step can still change the signed answer")
+		bad := ""
+		for _, b := range ch.suffixBlocks() {
+			for _, in := range b.Instrs {
+				if st, ok := in.(*ssa.Store); ok {
+					if fa, ok := st.Addr.(*ssa.FieldAddr); ok && isXMLModelPkg(pkgOfNamed(fa.X.Type())) && !strings.HasPrefix(fieldOwner(fa.X.Type()), "soap.") {
+						bad = "stores to " + fieldOwner(fa.X.Type()) + "." + fieldVar(fa.X.Type(), fa.Field).Name() + " at " + w.InstrPos(st)
+					}
+				}
+			}
+		}
+		r.Check(bad == "", "R-ORDER", "attr:untouched-after-signing", w.FnPos(ch.Fn), "the signed answer is only wrapped into the SOAP envelope after the chain", "after the answer was signed the handler "+bad)
+	}
+
 	// --- filter ------------------------------------------------------------------------
 	cx.checkAttrFilter(r)
 
